@@ -124,3 +124,17 @@ prop("C11",
      explanation="hang words (undefined opcodes) become fixed points after their second execution; the fix c003f27 leaves the loop there",
      assumptions=["unconditional termination rests on C09's bounds plus the harness sweep (see level text)"],
      )
+
+prop("C15",
+     modules=["Emu2a.Props.C15"],
+     theorems=["Emu2a.C15.wait_iff_ram", "Emu2a.C15.wait_costs_one", "Emu2a.C15.cost_law", "Emu2a.C15.microRun_edges",
+               "Emu2a.C15.steps_fixed", "Emu2a.C15.cost_mode_independent"],
+     harness="c15",
+     shrink=False,
+     exhaustive={"quick": False, "thorough": False},
+     level_text="Lean theorems on the edge function: an executed micro-step raises the wait flag iff it reads or writes an address 0x00-0xEF (one flag even for read+write words, none for I/O), a pending wait costs exactly one edge, hence cost_law: k+1 micro-steps take k+1 edges plus one per RAM-accessing step (microRun_edges ties the counting function to edge-by-edge execution); steps_fixed (kernel evaluation over the regenerated control store): for every defined first byte outside MUL/DIV and every defined second byte all interrupt-free paths have one and the same length; the cost does not depend on the step mode. The real machine is measured between boundaries for every form and compared with the law and with the fixed step count",
+     technique="Lean 4 proof of the cost law by induction over micro-steps + kernel-evaluated path-length uniqueness over the translated control store + measurement of every instruction form on the real machine",
+     rule="every defined first byte (x defined second bytes; quick: a third of them per repetition) with operand addresses in RAM or biased to 0xF0-0xFF, stack pointer in RAM or at the boundary, code placed in low RAM or straddling 0xEE/0xEF/0xF0 (second bytes read from the board input port); edges, executed micro-steps and RAM accesses are observed through Signals/hooks between two is_instruction_done boundaries and compared with steps + accesses and with the step count computed from the control store; MUL/DIV: every 37th operand pair (thorough: all 65 536); distinct = distinct (opcode, second byte, registers, placement)",
+     explanation="MUL/DIV step counts are data dependent; their loop functions belong to C01",
+     assumptions=["interrupt-taking paths are excluded from the fixed step count (C04 covers interrupt entry)"],
+     )
